@@ -61,9 +61,15 @@ def settings(quick):
     return out
 
 
-def cfg_of(st):
-    return render.cfg_with(dec=st["dec"], tho=st["tho"], num=[st["d"], st["remove"], st["round"]], pct=[st["d"], st["remove"], st["round"]],
-                           mon=[st["remove"], st["round"]])
+def cfg_of(st, kind="num"):
+    """the setting st applies to the kind under test; the other kinds get a decoy setting that differs in every field, so that a
+    value printed with another kind's setting is caught (numbers, percentages and money have separate settings)"""
+    own = [st["d"], st["remove"], st["round"]]
+    decoy = [(st["d"] + 3) % 10, not st["remove"], not st["round"]]
+    num = own if kind in ("num",) else decoy
+    pct = own if kind == "pct" else decoy
+    mon = [st["remove"], st["round"]] if kind == "money" else [decoy[1], decoy[2]]
+    return render.cfg_with(dec=st["dec"], tho=st["tho"], num=num, pct=pct, mon=mon)
 
 
 def literal(shape, st):
@@ -90,12 +96,12 @@ def item_for(shape, st, kind, extra):
 def run_items(rep, items, tag):
     groups = {}
     for i, it in enumerate(items):
-        groups.setdefault(canon(it["st"]), []).append(i)
+        groups.setdefault(canon([it["st"], it["kind"]]), []).append(i)
     cases, owners = [], []
     for key, idxs in groups.items():
         for b in range(0, len(idxs), 50):
             chunk = idxs[b:b + 50]
-            cases.append({"id": "%s.%d" % (tag, len(cases)), "cfg": cfg_of(items[chunk[0]]["st"]), "want": ["dec"],
+            cases.append({"id": "%s.%d" % (tag, len(cases)), "cfg": cfg_of(items[chunk[0]]["st"], items[chunk[0]]["kind"]), "want": ["dec"],
                           "steps": [{"op": "execute", "lang": "en", "text": items[i]["text"]} for i in chunk]})
             owners.append(chunk)
     obs = run_harness_stable_day(cases, tag, jobs=8)
